@@ -40,8 +40,12 @@ structure DataWorld (V : Type) extends World V where
   toDict : V → M V
   /-- the `cast_keyword_str` loop: `transformer.to_str(key)` for every non-str key, cls.py:575-581 -/
   castKeys : V → M V
-  /-- keyword unpacking in `cls.__init__(inst, **data)`: TypeError when a key is not a str -/
-  unpack : V → M (List (Nat × V))
+  /-- `dict(data)` for a mapping that is not a plain dict (its `keys()`/`__getitem__` may raise), cls.py:592-594 -/
+  readMapping : V → M V
+  /-- every key of the mapping is a `str` -/
+  strKeyed : V → Bool
+  /-- keyword unpacking in `cls.__init__(inst, **data)` of a plain string-keyed dict: cannot fail -/
+  unpack : V → List (Nat × V)
   /-- `value.get(discriminator) in discriminator_map` → the selected type, field.py:1042-1044 -/
   discLookup : Nat → V → M (Option Ty)
   noInput : Nat → V → Bool
@@ -348,10 +352,27 @@ def classInit (W : DataWorld V) (L : Legacy) (o : Opts) (P : ParserDecl V) (post
   if schema then raiseError else pure ()
   pure values
 
+/-- `keyword_data(cls, data, context)` (cls.py:568-586, fixes/C04-nonstring-keys): the mapping is read into a plain
+dict (`dict(data)`: its own protocol may raise); a key that is not a str is cast under `cast_keyword_str` (running
+options) and refused with TypeError otherwise.  Always called inside a `try` that wraps into ParseError. -/
+def keywordData (W : DataWorld V) (L : Legacy) (o : Opts) (d : V) : M V := do
+  let d ← W.readMapping d
+  if o.castKeywordStr then W.castKeys d
+  else if L.nonStrKeys || W.strKeyed d then pure d
+  else raise (builtinExc K.typeError)
+
 /-- `Cls(**kwargs)`: no `__context__` yet, so the context is made from the DECLARED options (cls.py:502-504) -/
 def classCall (W : DataWorld V) (L : Legacy) (declared : Opts) (P : ParserDecl V) (postInit : M Unit)
     (kwargs : List (Nat × V)) (schema : Bool := false) : M (List (Nat × V)) :=
   classInit W L (makeContextOpts declared none) P postInit kwargs schema
+
+/-- `Cls(<dict>)`: the positional dict of the generated `__init__` goes through `keyword_data` in a `try`
+(cls.py:521-526); legacy: `kwargs.update(_d)` took any keys -/
+def classCallDict (W : DataWorld V) (L : Legacy) (declared : Opts) (P : ParserDecl V) (postInit : M Unit)
+    (d : V) (schema : Bool := false) : M (List (Nat × V)) := do
+  let o := makeContextOpts declared none
+  let d ← tryExcept (keywordData W L o d) (fun e => raise (wrap Site.initPositional e))
+  classInit W L o P postInit (W.unpack d) schema
 
 /-- `cls.__from__(data, options)` / `init_dataclass(cls, data, options, context)` / the registered converter of a
 data class (`transform_dataclass`, with the enclosing context): everything below runs with `runningOpts` -/
@@ -362,10 +383,12 @@ def initDataclass (W : DataWorld V) (L : Legacy) (declared : Opts) (given ctx : 
       let d ← if W.isMapping data then pure data
         else if o.noExplicitCast then raise (builtinExc K.typeError)
         else W.toDict data
-      if o.castKeywordStr then W.castKeys d else pure d)
+      -- fixes/C04-nonstring-keys: the mapping is read and its keys are checked here, inside the `try`
+      keywordData W L o d)
     (fun e => raise (wrap Site.initDataclass e))
-  let kwargs ← W.unpack d
-  classInit W L o P postInit kwargs schema
+  -- legacy: `cls.__init__(inst, **data)` raises the interpreter's bare "keywords must be strings"
+  if L.nonStrKeys && !o.castKeywordStr && !W.strKeyed d then raise (builtinExc K.typeError) else
+  classInit W L o P postInit (W.unpack d) schema
 
 /-! ### FunctionParser — func.py:576-712, 933-954 -/
 
